@@ -248,6 +248,7 @@ struct Engine {
     std::map<std::string, int64_t> concrete_inputs;
     bool concrete_mode = false;
     bool stop_all = false;
+    std::map<std::string, uint64_t> unsat_sites;
     bool init_phase = false;
     uint64_t init_steps = 0;
 
@@ -431,6 +432,7 @@ struct Engine {
             S.decisions.push_back(mv ? '1' : '0');
             shard_gate(S);
         } else if (r == 0) {
+            if (opt.verbose) { Frame &f = S.th[S.cur].st.back(); std::string k = f.fi->name.substr(0, 90); if (f.pc > 0) { const DebugLoc &dl = f.fi->insts[f.pc - 1].I->getDebugLoc(); if (dl) k += ":" + std::to_string(dl.getLine()); } unsat_sites[k]++; }
             note_known(S, cond, mv);
         } else {
             inconclusive_kinds["solver unknown on branch (other side dropped)"]++;
